@@ -184,7 +184,10 @@ def run_seq(case, V, hooks, distinct):
         finished = []     # (invocation, expected, witness extras) of the invocations that ended fault-free: read again later
 
         def reread(tag):
-            for inv_, exp_, we_ in finished:
+            # bounded: the most recent ones plus the most recent externalised (large) ones
+            large = [f for f in finished if f[1][0] == "value" and len(repr(f[1][1])) > 1000][-40:]
+            recent = finished[-40:]
+            for inv_, exp_, we_ in large + [f for f in recent if f not in large]:
                 hooks["rereads_after_later_invocations"] += 1
                 inv_._cached_status = None
                 read_and_judge(app, inv_, exp_, V, hooks, tag, {**we_, "reread": True})
